@@ -41,6 +41,10 @@ def shards(tier):
                 if parents[0] != 0:
                     continue
                 out.append(("graph", (parents, ns, T)))
+    for a in range(2):
+        for b in range(3):
+            for early in (False, True):
+                out.append(("gen", (a, b, early)))
     for ri in range(len(c04.REQUESTS)):
         for si in range(len(c04.REQUESTS[ri][3])):
             for early in (False, True):
@@ -377,6 +381,14 @@ def run_shard(shard, tier):
         res.add_stats(st)
         if st.pruned:
             res.notes.append(f"cap hit for graph family parents={parents} streams={ns}")
+    elif kind == "gen":
+        # generated @defer/@stream placements (shared with C04): only the protocol clauses are C05's business
+        tmp = Result()
+        c04.run_gen(arg, tier, tmp)
+        keep = [v for v in tmp.violations if v["signature"].startswith(("protocol:", "consumer_"))]
+        tmp.violations = keep
+        tmp.extra.pop("violating_cases", None)
+        res.merge(tmp)
     else:
         run_e2e(arg, tier, res)
     return res
@@ -384,6 +396,8 @@ def run_shard(shard, tier):
 
 def replay(payload):
     res = Result()
+    if payload.get("gen"):
+        return c04.replay(payload)
     if payload["mode"] == "graph":
         parents = tuple(payload["parents"])
         c, obs = run_once(lambda c: scenario_graph(c, parents, payload["n_streams"], 3), payload["choices"])
